@@ -129,6 +129,19 @@ func genC04(r *kit.RNG) *C04Scenario {
 		sc.Ops = append(sc.Ops, C04Op{GapMs: 1000, Name: 7, DO: do}, C04Op{GapMs: kit.Pick(r, []int{900, 2000, 4000}), Name: 13, DO: do},
 			C04Op{GapMs: int(sc.TTL[1])*1000 + kit.Pick(r, []int{200, 2000}), Name: 13, DO: do}, C04Op{GapMs: 4000, Name: 13, DO: r.Chance(0.5)})
 	}
+	if len(sc.Ops) == 0 && r.Chance(0.15) {
+		// cut-completed alias recipe: nx.sig.test. is denied (validated, so the denial also cuts
+		// the subtree below it) through a delegation with a short lease; while that is live the
+		// alias cut.plain.test. -> a.b.nx.sig.test., of a zone whose own lease began later, is
+		// resolved and completed from the cut. Asked again after the lease that granted the
+		// denial has ended - the alias's TTL, the negative TTL and its own zone's lease all still
+		// running - the composition must have ended with the cut.
+		L := kit.Pick(r, []int{10, 30})
+		sc.NSTTL, sc.SOATTL, sc.SOAMin, sc.SigLifeS, sc.AliasTTL, sc.SlowMs = uint32(L), 3600, 3600, 86400*30, 3600, 0
+		do := r.Chance(0.5)
+		sc.Ops = append(sc.Ops, C04Op{GapMs: 1000, Name: 15, DO: do}, C04Op{GapMs: L * 800, Name: 22, DO: do},
+			C04Op{GapMs: L*200 + kit.Pick(r, []int{3500, 4500}), Name: 22, DO: do}, C04Op{GapMs: 1500, Name: 22, DO: r.Chance(0.5)})
+	}
 	pool := []int{r.Intn(c04NameCount), r.Intn(c04NameCount), r.Intn(c04NameCount)}
 	gaps := []int{200, 900, 1000, 2000, 4000, 4900, 5100, 6000, 11000, 29000, 31000, 61000, 299000, 301000, 3600000, 86390000, 86410000, 108000000}
 	n := r.Range(10, 60)
@@ -149,8 +162,8 @@ func genC04(r *kit.RNG) *C04Scenario {
 }
 
 // names: [0,6) hostK.sig.test. | [6,12) hostK.plain.test. | 12 alias.sig -> host0.sig | 13 far.sig -> host1.plain
-// | 14 alias.plain -> host2.plain | 15 nx.sig | 16 a.b.nx.sig | 17 nx.plain | 18 a.nx.plain
-const c04NameCount = 22
+// | 14 alias.plain -> host2.plain | 15 nx.sig | 16 a.b.nx.sig | 17 nx.plain | 18 a.nx.plain | 22 cut.plain -> a.b.nx.sig
+const c04NameCount = 23
 
 func c04Name(i int) string {
 	switch {
@@ -161,7 +174,7 @@ func c04Name(i int) string {
 	}
 	// 19-21: absent names whose proofs use different NSEC records: x/y.host0 need only the one at
 	// host0 (it also covers their wildcard), gg needs far->host0 and the apex record
-	return []string{"alias.sig.test.", "far.sig.test.", "alias.plain.test.", "nx.sig.test.", "a.b.nx.sig.test.", "nx.plain.test.", "a.nx.plain.test.", "x.host0.sig.test.", "gg.sig.test.", "y.host0.sig.test."}[i-12]
+	return []string{"alias.sig.test.", "far.sig.test.", "alias.plain.test.", "nx.sig.test.", "a.b.nx.sig.test.", "nx.plain.test.", "a.nx.plain.test.", "x.host0.sig.test.", "gg.sig.test.", "y.host0.sig.test.", "cut.plain.test."}[i-12]
 }
 
 func c04Clamp(ttl uint32) time.Duration {
@@ -188,7 +201,7 @@ func c04Run(sc *C04Scenario, tr *kit.Trace, res *kit.Result) {
 		plainRecs = append(plainRecs, fmt.Sprintf("host%d.plain.test. %d IN A 10.0.0.0", i, ttl))
 	}
 	sigRecs = append(sigRecs, fmt.Sprintf("alias.sig.test. %d IN CNAME host0.sig.test.", sc.AliasTTL), fmt.Sprintf("far.sig.test. %d IN CNAME host1.plain.test.", sc.AliasTTL))
-	plainRecs = append(plainRecs, fmt.Sprintf("alias.plain.test. %d IN CNAME host2.plain.test.", sc.AliasTTL))
+	plainRecs = append(plainRecs, fmt.Sprintf("alias.plain.test. %d IN CNAME host2.plain.test.", sc.AliasTTL), fmt.Sprintf("cut.plain.test. %d IN CNAME a.b.nx.sig.test.", sc.AliasTTL))
 	spec := &world.Spec{
 		Zones: []world.ZoneSpec{
 			{Name: ".", Signed: true, Alg: dns.ED25519, KeyIdx: 1, NSNames: []string{"a.root-servers.net."}, Addrs: []string{"198.41.0.4"}, NSTTL: 518400},
@@ -379,7 +392,7 @@ func c04Run(sc *C04Scenario, tr *kit.Trace, res *kit.Result) {
 			// entry (or a denial synthesised from cached proofs), composed under the alias's
 			// question - two such pieces of different age can even appear side by side in one
 			// reply, and the next reply may show only the older one. Each is within its lifetime.
-			isAlias := strings.HasPrefix(strings.ToLower(name), "alias.") || strings.HasPrefix(strings.ToLower(name), "far.")
+			isAlias := strings.HasPrefix(strings.ToLower(name), "alias.") || strings.HasPrefix(strings.ToLower(name), "far.") || strings.HasPrefix(strings.ToLower(name), "cut.")
 			direct := strings.Contains(what, strings.ToLower(name)) || (strings.Contains(what, "negative") && !isAlias)
 			if prev, ok := last[part]; ok && direct {
 				if st < prev.stamp {
